@@ -12,7 +12,7 @@ EXTRA_FILES = {"helper_mod.py": HELPER_MOD, "bad_mod.py": "y = 2\nraise ValueErr
                "exit_mod.py": "import sys\nsys.exit(2)\n", "fn_mod.py": "def boom():\n    raise KeyError('k')\n",
                "kb_mod.py": "raise KeyboardInterrupt\n",
                "ci_mod.py": "class TwoArgs(Exception):\n    def __init__(self, a, b):\n        super().__init__('two %s %s' % (a, b))\nraise TwoArgs(1, 2)\n"}
-MODE_STMT = {"normal": "pass", "exc": "raise ValueError('boom')", "excBrokenStr": "raise BrokenStr()",
+MODE_STMT = {"normal": "pass", "closeOut": "sys.stdout.close()", "exc": "raise ValueError('boom')", "excBrokenStr": "raise BrokenStr()",
              "excBrokenRepr": "raise BrokenRepr()", "exit": "exit()", "sysexit": "sys.exit(3)",
              "raiseSysExit": "raise SystemExit", "recursion": "rec()", "syntax": "x = (",
              "nul": "x = 1\0", "blockedEval": "eval('1')", "blockedOpenW": "open('out.txt', 'w')",
